@@ -48,7 +48,7 @@ inline void judge(Ctx& C, const std::string& text, int limit, uint64_t& dontCare
   DeserializationError err = deserializeJson(doc, text.c_str(), DeserializationOption::NestingLimit(uint8_t(limit)));
   int code = libCode(err);
   if (!R.zone.empty()) zones[R.zone]++;
-  C.outcome(std::string(err.c_str()) + (R.accept == dialect::ANY ? "/dontcare" : "/judged") + (limit == 1 ? "@1" : "@10"));
+  C.outcome(std::string(err.c_str()) + (R.accept == dialect::ANY ? "/dontcare" : "/judged") + "@" + std::to_string(limit));
   if (R.accept == dialect::ANY) {
     dontCare++;
     return;
@@ -91,6 +91,7 @@ inline void enumerate(Ctx& C, const std::vector<std::string>& toks, int n, const
         total++;
         uint64_t before = dontCare;
         judge(C, text, 10, dontCare, zones);
+        judge(C, text, 2, dontCare, zones);  // a limit that a sibling container reaches again after an earlier one was closed
         judge(C, text, 1, dontCare, zones);
         if (dontCare == before && len >= 2) C.nontrivial();
         C.end();
@@ -185,7 +186,7 @@ inline void run(Ctx& C) {
   for (auto& kv : zones) C.metrics["zone:" + kv.first] += double(kv.second);
   // outcome histogram is expensive per case; summarise by zone instead
   C.bound("all token sequences of length <= " + std::to_string(nFull) + " over the " + std::to_string(full.size()) + "-token alphabet and length <= " +
-          std::to_string(nCore) + " over the " + std::to_string(core.size()) + "-token core, nesting limits 10 and 1; all strings of length <= " + std::to_string(nMicro) +
+          std::to_string(nCore) + " over the " + std::to_string(core.size()) + "-token core, nesting limits 10, 2 and 1; all strings of length <= " + std::to_string(nMicro) +
           " over three character-level micro-alphabets (comment: / * a 1 LF ]; string: \" ' \\ u 0 a; number: 1 0 . e - +) at top level and inside an array; build " + cfgTag());
 }
 }  // namespace ix_dialect
